@@ -18,7 +18,7 @@ LEVEL = "exploration"
 RULE = (
     "CLI tier: Hypothesis draws 2-6 source files (generated SVGs with shared shape libraries, several colours, codepoint-sequence file names so "
     "that sequence-only codepoints, palette and reuse groups are sets of size >= 2), a colour format (vector, OT-SVG, bitmap) and a variation: a "
-    "permutation of the argument list, PYTHONHASHSEED in {0, 1, drawn}, ninja -j in {1, 2, 16} through a PATH shim, seeded per-step latencies that "
+    "permutation of the argument list, sources spread over two directories and spelled relative to different working directories, PYTHONHASHSEED in {0, 1, drawn}, ninja -j in {1, 2, 16} through a PATH shim, seeded per-step latencies that "
     "perturb completion order, and a copy of the workspace at another absolute location with another cwd and --build_dir. Oracle: with "
     "SOURCE_DATE_EPOCH fixed the sha256 of the output font is identical across the base build and every variant. API tier: the same generated "
     "inputs through write_font._generate_color_font in fresh interpreters with different hash seeds: identical bytes. Non-trivial: >= 2 sources "
@@ -140,10 +140,12 @@ def judge_cli(case, v):
     with Workspace("c08") as ws:
         ws.shims()
         names = []
-        for s in case["sources"]:
+        for si, s in enumerate(case["sources"]):
             fn = file_name(s["cps"])
-            ws.write("proj/src/" + fn, render(s["model"]))
-            names.append("src/" + fn)
+            # sources live in two sibling directories whose order differs from the order of the file names
+            sub = "src/zz" if si % 2 == 0 else "src/aa"
+            ws.write("proj/%s/%s" % (sub, fn), render(s["model"]))
+            names.append("%s/%s" % (sub, fn))
         root = ws.path("proj")
         results = []
         rc, out, h0 = _build(ws, root, names, fmt, "build", var["keep_names"], hashseed="0", ninja_j=4)
@@ -168,6 +170,11 @@ def judge_cli(case, v):
         abs_names = [os.path.join(other, n) for n in names]
         rc, out, h = _build(ws, ws.path("cwd2"), abs_names, fmt, os.path.join(other, "out", "b"), var["keep_names"], hashseed="0", ninja_j=4)
         results.append(("other-location,other-cwd", h if rc == 0 else "FAILED:" + tail(out, 2)))
+        # the same files spelled relative to another working directory (../aa/x.svg, x.svg): only names and contents may matter
+        cwd3 = os.path.join(root, "src", "aa")  # "../zz/…" sorts before "emoji_…": spelling order != path order
+        rel_names = [os.path.relpath(os.path.join(root, n), cwd3) for n in names]
+        rc, out, h = _build(ws, cwd3, rel_names, fmt, os.path.join(root, "build_rel"), var["keep_names"], hashseed="0", ninja_j=4)
+        results.append(("relative-spelling-from-subdir", h if rc == 0 else "FAILED:" + tail(out, 2)))
         v.extra_evals = len(results) - 1
         for label, h in results[1:]:
             if h != h0:
